@@ -40,6 +40,7 @@ type c17Model struct {
 	genCalls  [][3]int // shape 10: (worker id, function, argument)
 	genSrc    string
 	genSeed   uint64
+	chunked   bool // output is compared write by write (the workers' last output has no newline)
 	handshake bool // cores wait for each other's writes to globals: must complete within a step bound under fair scheduling
 }
 
@@ -230,6 +231,33 @@ fn sleeper(id: int) {
 			m.finals = append(m.finals, f)
 		}
 		tail()
+	case 12:
+		// the last thing every worker writes is a print without a newline (several arguments, one write)
+		m.chunked = true
+		b.WriteString(`fn pw(id: int, n: int) {
+    for i in 0..n { println("pw", id, i); }
+    print("<pw", id, "done>");
+}
+`)
+		b.WriteString("fn main() {\n")
+		for i := 0; i < n; i++ {
+			k := (i + iters) % 3
+			fmt.Fprintf(&b, "    spawn pw(%d, %d);\n", i, k)
+			for j := 0; j < k; j++ {
+				add(fmt.Sprintf("pw %d %d\n", i, j))
+			}
+			f := fmt.Sprintf("<pw %d done>", i)
+			add(f)
+			m.finals = append(m.finals, f)
+		}
+		switch late {
+		case 1:
+			b.WriteString("    let c = 0;\n    while c < 300 { c = c + 1; }\n")
+		case 2:
+			b.WriteString("    time.sleep(0.03);\n")
+		}
+		b.WriteString("    print(\"<main done>\");\n}\n")
+		add("<main done>")
 	case 11:
 		// arities 1, 2, 3, 5, 7 and argument types float, bool false, empty string; spawn used in a let
 		b.WriteString(`fn a1(x: float) { println("a1", x); }
@@ -428,6 +456,9 @@ func runC17(t *testing.T, spec RunSpec) *Verdict {
 		s.ClearDeadline("wait-returns")
 		got = classify(num, i)
 		atReturn = env.out.Lines()
+		if m.chunked {
+			atReturn = env.out.Texts()
+		}
 		returned = true
 		s.Logf("Wait returned %s core=%d", got.Kind, num)
 		if m.fatal {
@@ -445,6 +476,9 @@ func runC17(t *testing.T, spec RunSpec) *Verdict {
 		return v
 	}
 	final := env.out.Lines()
+	if m.chunked {
+		final = env.out.Texts()
+	}
 	if pf := spec.F("print_fail_at", 0); pf > 0 && env.out.Writes < pf {
 		m.fatal = false // the program printed fewer lines than the fault index: an ordinary run
 	}
@@ -555,7 +589,7 @@ func planC17(t *testing.T, tier string, seed uint64) ([]RunSpec, error) {
 		sweepCap = 0
 	}
 	idx := 0
-	for shape := 0; shape <= 11; shape++ {
+	for shape := 0; shape <= 12; shape++ {
 		for _, n := range ns {
 			for late := 0; late < 3; late++ {
 				base := RunSpec{Property: "C17", Workload: fmt.Sprintf("c17/shape%d", shape), Params: map[string]int{"shape": shape, "n": n, "iters": 1 + (n+late)%3, "main_late": late}}
